@@ -948,6 +948,32 @@ def return_shape(body, path_blocks):
         t = b["term"]
         if t["k"] == "call" and t["dest"]["l"] == 0 and not t["dest"]["p"]:
             shape = ("call", bb, t)
+    # `_0 = move tmp` where tmp has several definitions (an inlined helper's result, a match temporary): take the one
+    # this path executed
+    for _ in range(6):
+        if shape is None or shape[0] != "assign" or shape[2]["k"] != "use":
+            break
+        o = shape[2]["op"]
+        if o.get("k") not in ("copy", "move") or o["place"]["p"]:
+            break
+        l = o["place"]["l"]
+        if single_def(body, l) is not None or 1 <= l <= body.argc:
+            break
+        found = None
+        upto = path_blocks.index(shape[1]) if shape[1] in path_blocks else len(path_blocks) - 1
+        for bb in path_blocks[:upto + 1]:
+            b = body.blocks[bb]
+            for st in b["stmts"]:
+                if st is shape[2] or (bb == shape[1] and st.get("rv") is shape[2]):
+                    break
+                if st["k"] == "assign" and st["place"]["l"] == l and not st["place"]["p"]:
+                    found = ("assign", bb, st["rv"])
+            t = b["term"]
+            if bb != shape[1] and t["k"] == "call" and t["dest"]["l"] == l and not t["dest"]["p"]:
+                found = ("call", bb, t)
+        if found is None:
+            break
+        shape = found
     return shape
 
 
